@@ -26,6 +26,10 @@ let () =
                 (ty = "1") (bt d) with
         | Some l -> tb l | None -> "none"), out)
     | _ -> bad ());
+  register "eddsa_sigval" (function [r; s; out] ->
+      ((match eddsa_sigval (n_of_hex r) (n_of_hex s) with
+        | Some (a, b) -> tb a ^ ":" ^ tb b | None -> "none"), out)
+    | _ -> bad ());
   register "aead_ad" (function [pre; kind; idx; total; _; out] ->
       ((if kind = "f" then tb (final_ad (bt pre) (n_of_hex idx) (n_of_hex total)) else tb (chunk_ad (bt pre) (n_of_hex idx))), out)
     | _ -> bad ());
